@@ -120,21 +120,45 @@ Definition put_ds (s : state) (t : nat) (d : ds) : state :=
   mkState (arrs s) (nums s) (strs s) (set_nth t d (dss s)).
 
 (* ------------------------------------------------------------------ validators.py *)
-Inductive numarg := NScalar (q : Q) | NList (l : list Q).
-Inductive unitsarg := UStr (u : string) | UList (l : list string).
+(* the Python value handed to an origin / sampling setter (or from_array keyword) *)
+Inductive numarg :=
+| NScalar (q : Q)                 (* int / float / NumPy scalar *)
+| NList (l : list Q)              (* list / tuple / 1-D ndarray of numbers *)
+| NNone                           (* None (setter only; as a keyword None means "default") *)
+| NOther                          (* dict, set, range, ...: neither scalar nor ndarray/tuple/list *)
+| NStr                            (* a str: np.isscalar, np.full(ndim, 'x') is not numeric *)
+| NBool                           (* a bool: np.full has dtype bool, which is not np.number *)
+| NNonNum (n : nat)               (* list of n strings / bools / None: never numeric *)
+| NNested (ll : list (list Q)).   (* list of lists: ragged -> np.array raises; else flattened *)
+Inductive unitsarg :=
+| UStr (u : string)
+| UList (l : list string)         (* list / tuple; entries pass through str() *)
+| UOther.                         (* None, int, ndarray, dict, bytes ...: not str/list/tuple *)
 
-(* validate_ndinfo: scalar -> np.full(ndim, value); sequence -> length must equal ndim.
-   The result is always a NEW array (np.array(value).flatten()) *)
+Definition rectangular (ll : list (list Q)) : bool :=
+  match ll with [] => true | r :: rest => forallb (fun x => length x =? length r) rest end.
+
+(* validate_ndinfo: scalar -> np.full(ndim, value); sequence -> np.array(value).flatten(), whose
+   length must equal ndim (checked BEFORE the numeric-dtype test).  The result is always a NEW
+   array.  Errors: not scalar/ndarray/tuple/list -> TypeError; np.array fails (ragged nesting) ->
+   TypeError; wrong length or non-numeric dtype -> ValueError *)
 Definition validate_ndinfo (v : numarg) (n : nat) : res (list Q) :=
   match v with
   | NScalar q => Ok (repeat q n)
   | NList l => if length l =? n then Ok l else Err ValueErr
+  | NNone | NOther => Err TypeErr
+  | NStr | NBool | NNonNum _ => Err ValueErr
+  | NNested ll =>
+    if rectangular ll then
+      (if length (concat ll) =? n then Ok (concat ll) else Err ValueErr)
+    else Err TypeErr
   end.
 
 Definition validate_units (v : unitsarg) (n : nat) : res (list string) :=
   match v with
   | UStr u => Ok (repeat u n)
   | UList l => if length l =? n then Ok l else Err ValueErr
+  | UOther => Err TypeErr
   end.
 
 (* ensure_valid_array(array, ndim=k) for an ndarray: fewer dims -> np.expand_dims(axis=0)
@@ -558,6 +582,45 @@ Definition round_half_even (x : Q) : Z :=
   | Eq => if Z.even f then f else (f + 1)%Z
   end.
 
+(* ================================================================== Dataset4dstem reductions *)
+(* get_dp_mean / get_dp_max / get_dp_median (reduce over the scan axes (0, 1)) and
+   get_virtual_image (sum of array * mask over the detector axes (2, 3)) *)
+Inductive reducer := RMean | RMax | RMedian.
+
+Inductive detector :=
+| DMask (sh : list nat) (bits : list bool)   (* mask = boolean ndarray of this shape *)
+| DCircle (cy cx r : Q)                      (* mode="circle", geometry=((cy, cx), r) *)
+| DAnnular (cy cx ri ro : Q)                 (* mode="annular", geometry=((cy, cx), (ri, ro)) *)
+| DBad.                                      (* nothing given / unknown mode / malformed geometry *)
+
+Fixpoint insert_Z (x : Z) (l : list Z) : list Z :=
+  match l with [] => [x] | y :: r => if (x <=? y)%Z then x :: l else y :: insert_Z x r end.
+Definition sort_Z (l : list Z) : list Z := fold_right insert_Z [] l.
+
+Definition lastn {A : Type} (k : nat) (l : list A) : list A := skipn (length l - k) l.
+
+Definition dist2 (cy cx : Q) (k l : nat) : Q :=
+  ((inject_Z (Z.of_nat k) - cy) * (inject_Z (Z.of_nat k) - cy)
+   + (inject_Z (Z.of_nat l) - cx) * (inject_Z (Z.of_nat l) - cx))%Q.
+(* distance <= r  (distance >= 0) *)
+Definition within (d2 r : Q) : bool := Qle_bool 0 r && Qle_bool d2 (r * r)%Q.
+(* distance >= r *)
+Definition beyond (d2 r : Q) : bool := Qle_bool r 0 || Qle_bool (r * r)%Q d2.
+
+Definition detector_mask (n2 n3 : nat) (dt : detector) : res (list bool) :=
+  let grid := flat_map (fun k => map (fun l => (k, l)) (seq 0 n3)) (seq 0 n2) in
+  match dt with
+  | DMask sh bits =>
+    match sh with
+    | [m2; m3] => if (m2 =? n2) && (m3 =? n3) then Ok bits else Err ValueErr
+    | _ => Err ValueErr
+    end
+  | DCircle cy cx r => Ok (map (fun p : nat * nat => within (dist2 cy cx (fst p) (snd p)) r) grid)
+  | DAnnular cy cx ri ro =>
+    Ok (map (fun p : nat * nat => let d2 := dist2 cy cx (fst p) (snd p) in beyond d2 ri && within d2 ro) grid)
+  | DBad => Err ValueErr
+  end.
+
 Section Model.
   (* Fourier resampling of the data: axes, output lengths, input shape, input data -> output
      data (values are outside this model, see C06) *)
@@ -725,6 +788,59 @@ Section Model.
         do s4 <- set_sampling s3 t' (NList new_sampling);
         set_origin s4 t' (NList new_origin).
 
+  (* ---------------------------------------------------------------- Dataset4dstem.get_dp_* *)
+  (* Dataset2d.from_array(reduce(self.array, axis=(0, 1)), origin=self.origin[-2:],
+     sampling=self.sampling[-2:], units=self.units[-2:]); the methods exist on Dataset4dstem only
+     (AttributeError elsewhere) *)
+  Definition reduce_list (r : reducer) (xs : list Z) : res Z :=
+    match r with
+    | RMean => Ok (divf (Z.of_nat (length xs)) (sum_Z xs))
+    | RMax => match xs with [] => Err ValueErr | x :: rest => Ok (fold_left Z.max rest x) end
+    | RMedian =>
+      let srt := sort_Z xs in
+      let n := length xs in
+      Ok (if Nat.even n then divf 2 (nth (n / 2 - 1) srt 0 + nth (n / 2) srt 0)%Z
+          else nth (n / 2) srt 0%Z)
+    end.
+
+  Definition reduce_dp (s : state) (t : nat) (r : reducer) : res state :=
+    let d := get_ds s t in
+    let a := get_arr s (d_arr d) in
+    match d_cls d, a_shape a with
+    | D4stem, [n0; n1; n2; n3] =>
+      do data <- mapM (fun o : list nat =>
+                         reduce_list r (flat_map (fun i => map (fun j =>
+                             nth (ravel (a_shape a) (i :: j :: o)) (a_flat a) 0%Z) (seq 0 n1)) (seq 0 n0)))
+                      (coords [n2; n3]);
+      let (s1, aid) := alloc_fresh s [n2; n3] data in
+      from_array s1 D2 aid
+        (Some (NList (lastn 2 (get_num s (d_origin d)))))
+        (Some (NList (lastn 2 (get_num s (d_sampling d)))))
+        (Some (UList (lastn 2 (get_str s (d_units d)))))
+    | _, _ => Err OtherErr
+    end.
+
+  (* Dataset4dstem.get_virtual_image: Dataset2d.from_array(np.sum(array * mask, axis=(-1, -2)),
+     origin=self.origin[0:2], sampling=self.sampling[0:2], units=self.units[0:2]) *)
+  Definition virtual_image (s : state) (t : nat) (dt : detector) : res state :=
+    let d := get_ds s t in
+    let a := get_arr s (d_arr d) in
+    match d_cls d, a_shape a with
+    | D4stem, [n0; n1; n2; n3] =>
+      do mask <- detector_mask n2 n3 dt;
+      let data := map (fun o : list nat =>
+                         sum_Z (map (fun p : list nat * bool =>
+                                       if snd p then nth (ravel (a_shape a) (o ++ fst p)) (a_flat a) 0%Z
+                                       else 0%Z) (combine (coords [n2; n3]) mask)))
+                      (coords [n0; n1]) in
+      let (s1, aid) := alloc_fresh s [n0; n1] data in
+      from_array s1 D2 aid
+        (Some (NList (firstn 2 (get_num s (d_origin d)))))
+        (Some (NList (firstn 2 (get_num s (d_sampling d)))))
+        (Some (UList (firstn 2 (get_str s (d_units d)))))
+    | _, _ => Err OtherErr
+    end.
+
   (* ---------------------------------------------------------------- operations *)
   Inductive op :=
   | OFromArray (c : tag) (sh : list nat) (data : list Z)
@@ -741,14 +857,16 @@ Section Model.
   | OCrop (t : nat) (w : list (Z * Z)) (axes : axesarg) (in_place : bool)
   | OBin (t : nat) (f : factorarg) (axes : axesarg) (mean in_place : bool)
   | OFourier (t : nat) (spec : frspec) (axes : axesarg) (in_place : bool)
-  | OGetitem (t : nat) (idx : list index).
+  | OGetitem (t : nat) (idx : list index)
+  | OReduceDP (t : nat) (r : reducer)                           (* t.get_dp_mean/max/median() *)
+  | OVirtual (t : nat) (dt : detector).                         (* t.get_virtual_image(...) *)
 
   Definition op_target (o : op) : option nat :=
     match o with
     | OFromArray _ _ _ _ _ _ => None
     | OFromDs _ t | OCopy t | OSetOrigin t _ | OSetSampling t _ | OSetUnits t _
     | OSetArray t _ _ | OSetArrayFrom t _ | OSetName t | OPad t _ _ | OCrop t _ _ _
-    | OBin t _ _ _ _ | OFourier t _ _ _ | OGetitem t _ => Some t
+    | OBin t _ _ _ _ | OFourier t _ _ _ | OGetitem t _ | OReduceDP t _ | OVirtual t _ => Some t
     end.
 
   Definition op_src2 (o : op) : option nat :=
@@ -777,6 +895,8 @@ Section Model.
       | OBin t f ax mean ip => bin s t f ax mean ip
       | OFourier t spec ax ip => fourier s t spec ax ip
       | OGetitem t idx => getitem s t idx
+      | OReduceDP t r => reduce_dp s t r
+      | OVirtual t dt => virtual_image s t dt
       end.
 
   (* an exception leaves every object as it was *)
@@ -800,7 +920,7 @@ Section Model.
   (* operations that return a new dataset *)
   Definition returns_new (o : op) : bool :=
     match o with
-    | OFromArray _ _ _ _ _ _ | OFromDs _ _ | OCopy _ | OGetitem _ _ => true
+    | OFromArray _ _ _ _ _ _ | OFromDs _ _ | OCopy _ | OGetitem _ _ | OReduceDP _ _ | OVirtual _ _ => true
     | OPad _ _ ip | OCrop _ _ _ ip | OBin _ _ _ _ ip | OFourier _ _ _ ip => negb ip
     | _ => false
     end.
